@@ -648,7 +648,7 @@ func layoutIndexEntry(c *eng.Ctx) {
 		"the page id recorded in the index entry is the page alloc handed out", "got "+p.Desc(names["dataPageIndex"]))
 	c.Check(names["messageOffset"] == eng.CallArgs(wb)[1] && isExtract(names["messageOffset"], 2), "role:messageOffset", call, put,
 		"the offset recorded in the index entry is the offset the bytes were written at (alloc's result)", "got "+p.Desc(names["messageOffset"]))
-	dl := p.Desc(names["dataLen"])
+	dl := p.DescUp(eng.Unwrap(names["dataLen"]))
 	c.Check(dl == "len(data)" || strings.Contains(dl, "len(data)"), "role:dataLen", call, put,
 		"the length recorded in the index entry is len(data)", "got "+dl)
 	c.Check(p.Desc(eng.CallArgs(wb)[0]) == "data" && isExtract(eng.CallRecv(wb), 1), "data-written-to-allocated-page", wb, put,
